@@ -15,7 +15,7 @@ def run(tier, rep):
         "every process runs under another TZ / locale environment (UTC, Asia/Tokyo, America/St_Johns, ...): the process environment is not an argument of the function",
     ]
     vh = vlib.build_harness()
-    nproc = 6 if thorough else 3
+    nproc = 16 if thorough else 3
     runs = []  # (proc, item, occ, results)
     # the environment of the process is not an argument of the function either: every process gets another local zone / locale
     envs = [{"TZ": "UTC"}, {"TZ": "Asia/Tokyo", "LANG": "ja_JP.UTF-8"}, {"TZ": "America/St_Johns", "LC_ALL": "C"},
@@ -28,7 +28,7 @@ def run(tier, rep):
                 rep.add_summary(x)
         runs += vlib.read_ndjson(out)
     items = sorted({r["item"] for r in runs})
-    singles = items[:: max(1, len(items) // (12 if thorough else 5))]
+    singles = items[:: max(1, len(items) // (40 if thorough else 5))]
     for i, name in enumerate(singles):
         out = os.path.join(vlib.scratch(), "c15.single%d.ndjson" % i)
         recs, _ = vlib.run_vh(["c15-run", out, str(100 + i), "only=" + name], env=envs[(i + 1) % len(envs)])
